@@ -1,5 +1,5 @@
 import RnaVerif.Model.Stacking
-import RnaVerif.Lemmas.Pairs
+import RnaVerif.Lemmas.PairUtil
 import Mathlib.Data.String.Basic
 import Mathlib.Data.Prod.Lex
 import Mathlib.Tactic.Ring
